@@ -70,8 +70,22 @@ let fparse_of (h : (string, bool) Hashtbl.t) : bytes -> bytes option -> bytes ->
     | Some b -> b
     | None -> raise (Need k)
 
+let date_field_of (s : string) : date_field = match s with
+  | "11" -> F11 | "11R" -> F11R | "11S" -> F11S | "13D" -> F13D | "30" -> F30 | "32A" -> F32A | "32C" -> F32C | "32D" -> F32D
+  | "60F" -> F60F | "60M" -> F60M | "61" -> F61 | "62F" -> F62F | "62M" -> F62M | "64" -> F64 | "65" -> F65
+  | "13Djson" -> F13D_json | _ -> F30
+
 let run (cols : string array) : string =
   match cols.(0) with
+  | "date" ->
+      (match date_of (date_field_of cols.(1)) (unhex cols.(2)) with
+       | None -> "ERR"
+       | Some d -> Printf.sprintf "OK\t%04d-%02d-%02d\t%s" (int_of_n d.yr) (int_of_n d.mo) (int_of_n d.dy) (str (format_yymmdd d)))
+  | "time" ->
+      (match parse_time_hhmm (unhex cols.(1)) with
+       | None -> "ERR"
+       | Some t -> Printf.sprintf "OK\t%02d:%02d\t%s" (int_of_n t.hh) (int_of_n t.mi) (str (format_hhmm t)))
+  | "offset" -> if offset_ok (unhex cols.(1)) then "OK" else "ERR"
   | "msg" ->
       let l = layout_of (unhex cols.(1)) in
       let text = unhex cols.(2) in
